@@ -101,4 +101,26 @@ theorem v1_try_safe : ∀ s, Reach (sys cfgTry) s → safe cfgTry s = true :=
 theorem v1_batch_safe : ∀ s, Reach (sys cfgBatch) s → safe cfgBatch s = true :=
   safe_of_check _ { coded with M := 307, W := 104 } 400 _ (by decide +kernel)
 
+/-- non-vacuity: in `v1_two` a final state is reachable by a schedule in which waiter 1 enqueues while
+    T1 is inside unlock() (after its `pendingQueue_.empty()` test), so T1's try_mark_inactive does
+    not mark the queue inactive, the exchange fetches waiter 1 and T1 hands the lock over: waiter 1
+    completes on T1's thread.  (So `safe` is not true merely because nothing happens.) -/
+def twoWitness : List Nat := [0, 0, 0, 0, 0, 1, 1, 0, 0, 0, 0, 0, 0, 0, 0, 0, 0, 0, 0]
+
+example : ∃ ls s, runChoices (sys cfgTwo) (sys cfgTwo).init twoWitness = some (ls, s) ∧ Reach (sys cfgTwo) s ∧
+    final cfgTwo s = true ∧ s.grants = [0, 1] ∧
+    ls.filterMap obsOf = ["T1 lock0", "T1 w0.value", "T1 w0.unlock", "T2 lock1", "T1 w1.value", "T1 w1.unlock",
+                          "T0 t9.value", "T0 t9.unlock"] := by
+  have h : (match runChoices (sys cfgTwo) (sys cfgTwo).init twoWitness with
+      | some (ls, s) => final cfgTwo s && decide (s.grants = [0, 1]) &&
+          decide (ls.filterMap obsOf = ["T1 lock0", "T1 w0.value", "T1 w0.unlock", "T2 lock1", "T1 w1.value",
+                                        "T1 w1.unlock", "T0 t9.value", "T0 t9.unlock"])
+      | none => false) = true := by decide +kernel
+  cases hr : runChoices (sys cfgTwo) (sys cfgTwo).init twoWitness with
+  | none => simp [hr] at h
+  | some p =>
+    obtain ⟨ls, s⟩ := p
+    simp only [hr, Bool.and_eq_true, decide_eq_true_eq] at h
+    exact ⟨ls, s, rfl, runChoices_reach _ _ _ _ _ Reach.init hr, h.1.1, h.1.2, h.2⟩
+
 end Unifex.Props.C15
